@@ -379,43 +379,77 @@ Theorem C20_x_per_tuple_conservation : forall c mode progs aprogs xsched,
 Proof. exact x_per_tuple. Qed.
 Print Assumptions C20_x_per_tuple_conservation.
 
-(* subscribers are never blocked: with the select/default send of the code EVERY step of every auxiliary thread is
-   enabled in EVERY state (full channels, never-reading subscribers, concurrent emitters included) *)
-Theorem C20_x_aux_never_blocked : forall s ss a, xstep_aux SelectDefault s ss a <> None.
-Proof. exact aux_always_enabled. Qed.
-Print Assumptions C20_x_aux_never_blocked.
+(* WHAT CAN BLOCK.  With the select/default send of the code an auxiliary step is disabled only when it is tickMu.Lock() and the
+   mutex is held — never because of a full channel, a subscriber that does not read, an emitter, or the metric state. *)
+Theorem C20_x_aux_blocked_only_on_tickmu : forall s ss a,
+  xstep_aux SelectDefault s ss a = None -> ss_mu ss = true /\ (a_pc a = SSub2 \/ a_pc a = SUn4).
+Proof. exact aux_blocked_only_on_tickmu. Qed.
+Print Assumptions C20_x_aux_blocked_only_on_tickmu.
 
-(* emitters are never blocked by subscribers: a client step is always enabled (a total function), its effect on the metric
-   and on itself does not depend on the channels at all (only subscriberCount and the dirty flag are read, only the dirty
-   flag is written), and the number of own steps it still needs is bounded by the client alone.  Conversely an auxiliary
-   step cannot modify the metric state: [xstep_aux] returns no [shared]. *)
+(* a client (emitter) step is disabled only inside tombstoneOnce.Do while ANOTHER CLIENT runs the initialiser — never because
+   of a subscriber, a channel, a tick, a snapshot or tickMu (clients take no mutex) *)
+Theorem C20_x_client_blocked_only_on_once : forall c s ss cl,
+  xstep_client c s ss cl = None -> snd cl = O1 /\ ss_once ss = 1%nat.
+Proof. exact client_blocked_only_on_once. Qed.
+Print Assumptions C20_x_client_blocked_only_on_once.
+
+(* and neither wait is unbounded, for every extended schedule: whenever tickMu is held its holder is a thread inside the critical
+   section whose next step is enabled (whatever the send mode) and which releases the mutex after at most two own steps;
+   whenever the Once initialiser is running, the client running it is enabled and completes it with its next step *)
+Theorem C20_x_tickmu_holder_enabled : forall c mode progs aprogs sched,
+  let x := xrun c mode (xsys0 progs aprogs) sched in
+  ss_mu (x_ss x) = true ->
+  exists j a, nth_error (x_aux x) j = Some a /\ crit a = 1 /\
+    (forall md, exists ss' a', xstep_aux md (x_sh x) (x_ss x) a = Some (ss', a') /\
+                               (ss_mu ss' = false \/ (crit a' = 1 /\ forall s2 ss2 md2, ss_mu ss2 = true ->
+                                  exists ss3 a3, xstep_aux md2 s2 ss2 a' = Some (ss3, a3) /\ ss_mu ss3 = false))).
+Proof. exact mu_holder_enabled. Qed.
+Print Assumptions C20_x_tickmu_holder_enabled.
+
+Theorem C20_x_once_runner_enabled : forall c mode progs aprogs sched,
+  let x := xrun c mode (xsys0 progs aprogs) sched in
+  ss_once (x_ss x) = 1%nat ->
+  exists i cl, nth_error (x_cl x) i = Some cl /\ snd cl = O2 /\
+    exists s' ss' cl', xstep_client c (x_sh x) (x_ss x) cl = Some (s', ss', cl') /\ ss_once ss' = 2%nat.
+Proof. exact once_runner_enabled. Qed.
+Print Assumptions C20_x_once_runner_enabled.
+
+(* emitters are independent of the subscribers: enabledness and effect of a client step depend on the subscription side only
+   through subscriberCount, the dirty flag and the tombstone Once; it writes only the latter two (not the channels, tickMu,
+   tickRunning).  Conversely an auxiliary step cannot modify the metric state: [xstep_aux] returns no [shared]. *)
 Theorem C20_x_emitters_ignore_channels : forall c s ss1 ss2 cl,
-  ss_nsubs ss1 = ss_nsubs ss2 -> ss_dirty ss1 = ss_dirty ss2 ->
-  let '(s1, ss1', cl1) := xstep_client c s ss1 cl in
-  let '(s2, ss2', cl2) := xstep_client c s ss2 cl in
-  s1 = s2 /\ cl1 = cl2 /\ ss_dirty ss1' = ss_dirty ss2' /\
-  ss_subs ss1' = ss_subs ss1 /\ ss_nsubs ss1' = ss_nsubs ss1 /\ ss_subs ss2' = ss_subs ss2.
+  ss_nsubs ss1 = ss_nsubs ss2 -> ss_dirty ss1 = ss_dirty ss2 -> ss_once ss1 = ss_once ss2 ->
+  match xstep_client c s ss1 cl, xstep_client c s ss2 cl with
+  | Some (s1, ss1', cl1), Some (s2, ss2', cl2) =>
+      s1 = s2 /\ cl1 = cl2 /\ ss_dirty ss1' = ss_dirty ss2' /\ ss_once ss1' = ss_once ss2' /\
+      ss_subs ss1' = ss_subs ss1 /\ ss_nsubs ss1' = ss_nsubs ss1 /\ ss_mu ss1' = ss_mu ss1 /\ ss_running ss1' = ss_running ss1
+  | None, None => True
+  | _, _ => False
+  end.
 Proof. exact client_ignores_channels. Qed.
 Print Assumptions C20_x_emitters_ignore_channels.
 
-Theorem C20_x_emitter_wait_free : forall c s ss cl,
+(* model-level bound (Observe / gauge Add are one step in the model, CAS loops in Go): every enabled own step of a client
+   strictly decreases a bound depending on the client alone *)
+Theorem C20_x_emitter_bounded : forall c s ss cl s' ss' cl',
   (finished (fst cl) && match snd cl with MNone => true | _ => false end) = false ->
-  (xbudget (snd (xstep_client c s ss cl)) < xbudget cl)%nat.
+  xstep_client c s ss cl = Some (s', ss', cl') -> (xbudget cl' < xbudget cl)%nat.
 Proof. exact client_progress. Qed.
-Print Assumptions C20_x_emitter_wait_free.
+Print Assumptions C20_x_emitter_bounded.
 
 (* with a blocking channel send instead of select/default the tick IS blocked for good by a subscriber that never reads —
    and even then the emitter finishes: one client (resolve, two emissions), one thread (Subscribe(1); tick; tick) *)
 Definition w5_progs : list (list op) := [[OResolve tA; OEmitH 0 EAdd 1; OEmitH 0 EAdd 1]].
 Definition w5_aux : list (list sop) := [[SSubscribe 1; STick; STick]].
 Definition w5_sched : list (bool * nat) :=
-  repeat (false, 0%nat) 2 ++ repeat (true, 0%nat) 9 ++ repeat (false, 0%nat) 7 ++ repeat (true, 0%nat) 5 ++ repeat (false, 0%nat) 10.
-Theorem C20_x_aux_never_blocked_refuted :
+  repeat (false, 0%nat) 5 ++ repeat (true, 0%nat) 9 ++ repeat (false, 0%nat) 6 ++ repeat (true, 0%nat) 5 ++ repeat (false, 0%nat) 10.
+Theorem C20_x_channel_send_refuted :
   let x := xrun (cfg_of Repaired 2) BlockingSend (xsys0 w5_progs w5_aux) w5_sched in
   xclients_done x = true /\
-  (exists a, nth_error (x_aux x) 0 = Some a /\ afinished a = false /\ xstep_aux BlockingSend (x_sh x) (x_ss x) a = None).
+  (exists a, nth_error (x_aux x) 0 = Some a /\ afinished a = false /\ ss_mu (x_ss x) = false /\
+             xstep_aux BlockingSend (x_sh x) (x_ss x) a = None).
 Proof. vm_compute. split; [reflexivity|]. eexists; repeat split; reflexivity. Qed.
-Print Assumptions C20_x_aux_never_blocked_refuted.
+Print Assumptions C20_x_channel_send_refuted.
 
 (* the same run with the code's select/default: the tick completes, the second update is counted as dropped,
    the first is in the channel, the snapshot value is 2 *)
@@ -423,9 +457,29 @@ Example C20_x_nonvacuous :
   let x := xrun (cfg_of Repaired 2) SelectDefault (xsys0 w5_progs w5_aux) w5_sched in
   xclients_done x = true /\ forallb afinished (x_aux x) = true /\
   map (fun b => (sb_len b, sb_dropped b)) (ss_subs (x_ss x)) = [(1%nat, 1)] /\
-  shown KCounter (x_sh x) tA = 2 /\ ss_dirty (x_ss x) = false /\ ss_nsubs (x_ss x) = 1.
+  shown KCounter (x_sh x) tA = 2 /\ ss_dirty (x_ss x) = false /\ ss_nsubs (x_ss x) = 1 /\ ss_running (x_ss x) = true.
 Proof. vm_compute. repeat split; reflexivity. Qed.
 Print Assumptions C20_x_nonvacuous.
+
+(* the two real waits do occur: (a) two Subscribe calls — the second waits at tickMu.Lock() while the first is in the critical
+   section, and goes on once it has left; (b) two clients handed the tombstone — the second waits in Once.Do while the first
+   runs the initialiser *)
+Example C20_x_waits_nonvacuous :
+  (let x := xrun (cfg_of Repaired 2) SelectDefault (xsys0 [] [[SSubscribe 1]; [SSubscribe 1]]) [(false,0);(false,0);(false,0);(false,1);(false,1)]%nat in
+   (exists a, nth_error (x_aux x) 1 = Some a /\ xstep_aux SelectDefault (x_sh x) (x_ss x) a = None) /\
+   let y := xrun (cfg_of Repaired 2) SelectDefault x [(false,0);(false,0)]%nat in
+   exists a, nth_error (x_aux y) 1 = Some a /\ xstep_aux SelectDefault (x_sh y) (x_ss y) a <> None) /\
+  (let c := cfg_of Repaired 1 in
+   let x := xrun c SelectDefault (xsys0 [[OResolve tA]; [OResolve tB]; [OResolve tC]] [])
+              (repeat (true,0%nat) 4 ++ repeat (true,1%nat) 2 ++ repeat (true,2%nat) 2 ++ [(true,1%nat)]) in
+   exists cl, nth_error (x_cl x) 2 = Some cl /\ snd cl = O1 /\ xstep_client c (x_sh x) (x_ss x) cl = None).
+Proof.
+  vm_compute. split; [split|].
+  - eexists; split; reflexivity.
+  - eexists; split; [reflexivity | discriminate].
+  - eexists; repeat split; reflexivity.
+Qed.
+Print Assumptions C20_x_waits_nonvacuous.
 
 (* ---------------------------------------------------------------- gauges *)
 (* A gauge value does not count emissions, so the conservation theorems exclude gauges.  What holds for gauges, for EVERY
